@@ -28,6 +28,10 @@ type verifStreamConn struct {
 	maxReach int
 	zeroLen  bool // a Read was issued with an empty buffer
 
+	// chunking: -1 = every partition into chunks; k >= 0 = at most k partial
+	// reads (each partial read returns 1 byte or about half), the rest are full
+	partial   int
+	hold      chan struct{} // non-nil: at the end of the data Read blocks until it is closed
 	written   [][]byte
 	writeErr  bool
 	shortBy   int
@@ -55,13 +59,27 @@ func (c *verifStreamConn) Read(p []byte) (int, error) {
 	}
 	rem := len(c.data) - c.pos
 	if rem == 0 {
+		if c.hold != nil {
+			<-c.hold // the peer keeps the connection open and silent
+		}
 		return 0, io.EOF
 	}
 	lim := len(p)
 	if rem < lim {
 		lim = rem
 	}
-	n := 1 + verifChoice(lim)
+	n := lim
+	switch {
+	case c.partial < 0:
+		n = 1 + verifChoice(lim)
+	case c.partial > 0 && lim > 1:
+		switch verifChoice(3) {
+		case 1:
+			n, c.partial = 1, c.partial-1
+		case 2:
+			n, c.partial = (lim+1)/2, c.partial-1
+		}
+	}
 	copy(p, c.data[c.pos:c.pos+n])
 	c.pos += n
 	return n, nil
@@ -77,7 +95,13 @@ func (c *verifStreamConn) Write(p []byte) (int, error) {
 	return len(p) - c.shortBy, nil
 }
 
-func (c *verifStreamConn) Close() error                       { c.closed++; return nil }
+func (c *verifStreamConn) Close() error {
+	c.closed++
+	if c.hold != nil && c.closed == 1 {
+		close(c.hold)
+	}
+	return nil
+}
 func (c *verifStreamConn) LocalAddr() net.Addr                { return verifAddr{"10.0.0.1:1"} }
 func (c *verifStreamConn) RemoteAddr() net.Addr               { return c.remote }
 func (c *verifStreamConn) SetDeadline(t time.Time) error      { c.deadlines++; return nil }
